@@ -76,10 +76,18 @@ def _cp(x):
     return cps(x)
 
 
+def _big(d: bytes):
+    """file contents above 4 KiB travel as (marker, length, SHA-256 bytes): an encoding, equality is still decided by TLC"""
+    import hashlib
+    return [-3, len(d) % 1000000, len(d) // 1000000] + list(hashlib.sha256(d).digest())
+
+
 def _enc_part(p, as_bytes):
     d = p["data"]
     if d is None:
         d = ""
+    if isinstance(d, (bytes, bytearray)) and len(d) > 4096:
+        return {"kind": p["kind"], "name": _cp(p["name"]), "fname": _cp(p["fname"]), "ctype": _cp(p["ctype"]), "data": _big(bytes(d))}
     if isinstance(d, str):
         d = list(d.encode("utf-8", "surrogatepass")) if as_bytes else cps(d)
     else:
@@ -210,7 +218,14 @@ def path_environ(seed):
 
     rng = random.Random(seed)
     parts = [p for p in _gen_parts(rng, b"WerkzeugFormPart") if p["name"] != ""]
-    if rng.random() < 0.4:
+    if seed % 97 == 0:
+        # uploads larger than the default max_form_memory_size (500 kB) next to text fields, in both orders:
+        # files are not bounded by it, so the form must come back unchanged
+        big = {"kind": "file", "name": "big", "fname": "big.bin", "ctype": "application/octet-stream",
+               "data": bytes(rng.randrange(256) for _ in range(1024)) * rng.choice([520, 700])}
+        parts = [{"kind": "field", "name": "before", "fname": "", "ctype": "", "data": "x"}, big,
+                 {"kind": "field", "name": "after", "fname": "", "ctype": "", "data": "y"}]
+    if rng.random() < 0.4 and seed % 97 != 0:
         parts = [p for p in parts if p["kind"] == "field"]  # -> urlencoded form
     pairs = [(_text(rng), _text(rng)) for _ in range(rng.choice([0, 1, 2, 4]))]
     err, pf, pu, args = "", [], [], []
